@@ -4,10 +4,13 @@ package base64streamreader
 
 // Contracts checked by /verif/govc (see /verif/DESIGN.md). Comment-only file.
 
-// Reading any byte stream never panics and never reports more bytes than p holds (C04).
+// Reading any byte stream never panics and never reports more bytes than p holds, and the
+// reader gives up on an error of the underlying reader only if that read delivered no bytes
+// (bytes that arrive together with an error, as TLS does on close, are not dropped) (C04).
 //@ func (r *reader) Read
 //@   opt safety-tag=C04
 //@   ensures[C04] 0 <= ret && ret <= len(p)
+//@   assert[C04]@return#1 n == 0
 //@   modifies fields(r), all(byte), fresh
 
 // The wrapped reader is set once by New and never nil.
